@@ -49,6 +49,11 @@ pub const TEMPLATES: &[&str] = &[
     "(lambda ($N . $N) $E)",
     "(lambda ($T $T) $E)",
     "(lambda (($N) $N) $N)",
+    "(lambda ($N ()) $N)",
+    "((lambda ($N ()) $N) $E $E)",
+    "((lambda (() $N) $N) $E $E)",
+    "(define ($N $N ()) $N)",
+    "(define ($N . ()) $E)",
     "((lambda ($F) $S) $S)",
     "(if $E $E $E)",
     "(if $E $E)",
